@@ -30,7 +30,8 @@ TRUSTED_BASE = [
     "viz/renderer/*.py and viz/mermaid.py are not modelled: each drawing they produce is validated by Viz.viz_problems, whose "
     "soundness and completeness w.r.t. the declarative predicate Faithful is theorem C20_checker",
     "the transcription of nodesByState/edgesByState entries and of Mermaid source lines into Viz.drawing literals (harness/props/c20.py)",
-    "the ground-truth reader (Graph.nodes, Graph.nx_graph, GraphNode._resolve_original_input_name / map_outputs_from_original)",
+    "the ground-truth reader (Graph.nodes, Graph.nx_graph plus a data edge from every FURTHER producer of a shared output name, matched by name "
+    "in the harness; GraphNode._resolve_original_input_name / map_outputs_from_original)",
 ]
 
 # --------------------------------------------------------------------------- generation
@@ -694,7 +695,8 @@ def run(ctx):
             break
     ctx.coverage.update(
         evaluations=len(batch), coq_checks=res["n"], programs=len(infos), distinct_nontrivial=len(nontrivial),
-        rule="graphs from the families dag / gated / emit+wait_for / loop (L1, L2) / ungated cycles / two cycles, with dependency-, gate- and "
+        rule="graphs from the families dag / gated / emit+wait_for / loop (L1, L2) / ungated cycles / two cycles / shared output names (exclusive "
+             "branches, ordered writers), with dependency-, gate- and "
              "signal-closed groups wrapped into nested graphs to depth 0-3 (siblings and nestings mixed), 20% with values renamed at wrapper "
              "boundaries (with_inputs/with_outputs); for each: to_flat_graph, the set of precomputed states, EVERY valid expansion state x both "
              "output modes of the interactive data, and Mermaid at every depth x both modes, each drawing through Viz.viz_problems; "
